@@ -16,7 +16,7 @@ def diff_str(d):
 
 def run_query_property(prop, judge, imports, known_map, rule, assumptions, tier, seed, n_quick=1200, n_thorough=30000,
                        gen=None, engine="postgresql", extra=None, corr_name="compile", what="the property fails", extra_args=None,
-                       classify=None, with_generate=False, second=None, chunk_hook=None):
+                       classify=None, with_generate=False, second=None, chunk_hook=None, positional=False, pre_finish=None):
     """known_map: class number -> known-finding class name; gen(rng) -> case dict"""
     rep = Report(prop, tier, seed)
     ok, info = prep(prop)
@@ -32,7 +32,7 @@ def run_query_property(prop, judge, imports, known_map, rule, assumptions, tier,
     cases += [gen(rng) for _ in range(n)]
     for lo in range(0, len(cases), 3000):
         chunk = cases[lo:lo + 3000]
-        res = run_harness(compile_jobs(chunk, engine=engine))
+        res = run_harness(compile_jobs(chunk, engine=engine, positional=positional))
         gens = [None] * len(chunk)
         if with_generate:
             cfg = json.dumps({"version": "1", "packages": [{"path": "db", "engine": engine, "schema": "schema.sql",
@@ -107,6 +107,8 @@ def run_query_property(prop, judge, imports, known_map, rule, assumptions, tier,
                               % (prop, corr_name, diff_str(diff)), replay, no_input=True)
             if reparse:
                 rep.count("reparse-rejected")
+    if pre_finish is not None:
+        pre_finish(rep, rng, tier)
     if getattr(rep, "proof_broken", None) and not rep.violations:
         rep.violation("proof obligation no longer checks: " + rep.proof_broken,
                       {"theorem_file": "coq/theories/Props/%s.v" % prop, "detail": info}, no_input=True)
